@@ -80,20 +80,31 @@ theorem winner_trans (a b c : ObjectMeta) (h1 : K8sConfiguration.chooseObjectMet
   · right; omega
 
 /-- **compareObjectMetas_is_metaEq**: the attribute equality `IsEqual` starts from. -/
-theorem compareObjectMetas_is_metaEq (rank ann) (m1 m2 : ObjectMeta) (h1 : 0 ≤ m1.Generation) (h2 : 0 ≤ m2.Generation) :
+theorem rank_injective (rank : String → Nat) (hr : OrderEmbedding rank) (a b : String) (h : rank a = rank b) : a = b := by
+  have h1 : ¬ a < b := fun hlt => by have := (hr a b).mp hlt; omega
+  have h2 : ¬ b < a := fun hlt => by have := (hr b a).mp hlt; omega
+  exact String.le_antisymm (String.not_lt.mp h2) (String.not_lt.mp h1)
+
+theorem compareObjectMetas_is_metaEq (rank ann) (hr : OrderEmbedding rank) (m1 m2 : ObjectMeta)
+    (h1 : 0 ≤ m1.Generation) (h2 : 0 ≤ m2.Generation) :
     K8sConfiguration.compareObjectMetas m1 m2 = metaEq (absMeta rank ann m1) (absMeta rank ann m2) := by
   have g : (m1.Generation = m2.Generation) ↔ (m1.Generation.toNat = m2.Generation.toNat) := by omega
+  have u : (m1.UID = m2.UID) ↔ (rank m1.UID = rank m2.UID) := ⟨fun h => by rw [h], rank_injective rank hr _ _⟩
   simp only [K8sConfiguration.compareObjectMetas, metaEq, absMeta]
-  by_cases hn : m1.Namespace = m2.Namespace <;> by_cases hm : m1.Name = m2.Name <;> by_cases hg : m1.Generation = m2.Generation
-  all_goals simp [hn, hm, hg]
-  all_goals (have hg' : ¬ m1.Generation.toNat = m2.Generation.toNat := fun h => hg (g.mpr h); simp [hg']; exact hg)
+  rw [Bool.eq_iff_iff]
+  simp only [Bool.and_eq_true, beq_iff_eq, decide_eq_true_eq]
+  rw [u, g]
+  simp only [and_assoc]
+  constructor
+  · intro ⟨a, b, c, d⟩; exact ⟨decide_eq_true a, decide_eq_true b, decide_eq_true c, decide_eq_true d⟩
+  · intro ⟨a, b, c, d⟩; exact ⟨of_decide_eq_true a, of_decide_eq_true b, of_decide_eq_true c, of_decide_eq_true d⟩
 
 /-- with annotations: equal annotation maps are seen as equal by any abstraction of them; and for an injective abstraction the
 translated function is exactly the model's `metaEqAnn`. -/
-theorem compareWithAnnotations_is_metaEqAnn (rank) (ann : StrMap → String) (hinj : ∀ a b, ann a = ann b → a = b)
-    (m1 m2 : ObjectMeta) (h1 : 0 ≤ m1.Generation) (h2 : 0 ≤ m2.Generation) :
+theorem compareWithAnnotations_is_metaEqAnn (rank) (hr : OrderEmbedding rank) (ann : StrMap → String)
+    (hinj : ∀ a b, ann a = ann b → a = b) (m1 m2 : ObjectMeta) (h1 : 0 ≤ m1.Generation) (h2 : 0 ≤ m2.Generation) :
     K8sConfiguration.compareObjectMetasWithAnnotations m1 m2 = metaEqAnn (absMeta rank ann m1) (absMeta rank ann m2) := by
-  have hc := compareObjectMetas_is_metaEq rank ann m1 m2 h1 h2
+  have hc := compareObjectMetas_is_metaEq rank ann hr m1 m2 h1 h2
   simp only [K8sConfiguration.compareObjectMetasWithAnnotations, metaEqAnn]
   rw [hc]
   by_cases ha : m1.Annotations = m2.Annotations
